@@ -117,6 +117,8 @@ def readers(ctx):
 @PROP.obligation('C08.rescan', canaries=[
     mut.replace_expr(W, 'Wallet.utxos_update', 'bool(spent_in_db.count())', 'False', 'rescan resurrects outputs spent by stored wallet transactions', nth=1),
     mut.replace_expr(W, 'Wallet.utxos_update', "DbTransactionInput.output_n == utxo['output_n']", "DbTransactionInput.index_n == utxo['output_n']", 'rescan matches the input position instead of the outpoint index'),
+    mut.replace_expr(W, 'Wallet.utxos_update', "DbTransactionInput.prev_txid == bytes.fromhex(utxo['txid'])", "DbTransactionInput.prev_txid == bytes.fromhex(utxo['txid']) and DbTransaction.account_id == account_id", 'stored-input look-up narrowed', nth=99) if False else
+    mut.replace_expr(W, 'Wallet.utxos_update', 'DbTransaction.wallet_id == self.wallet_id', 'DbTransaction.account_id == account_id', 'stored-input look-up keyed by account instead of wallet', nth=2),
 ])
 def rescan(ctx):
     """utxos_update: a UTXO reported by a provider is stored / refreshed with spent = bool(count of wallet inputs with the same
@@ -130,6 +132,19 @@ def rescan(ctx):
     ctx.saw('stored-input query filters: %s' % x.filters)
     for f in ('DbTransaction.wallet_id == self.wallet_id', "DbTransactionInput.prev_txid == bytes.fromhex(utxo['txid'])", "DbTransactionInput.output_n == utxo['output_n']"):
         ctx.require(f in x.filters, q, 'stored wallet inputs are not matched by `%s`' % f, x.node, 'the spent flag of a re-imported UTXO is derived from the wrong rows')
+    # an outpoint is identified by (wallet, previous txid, index) alone: any further predicate narrows the look-up and lets a spending
+    # input that is recorded under another account / network / status go unnoticed
+    known = ('DbTransaction.wallet_id == self.wallet_id', "DbTransactionInput.prev_txid == bytes.fromhex(utxo['txid'])", "DbTransactionInput.output_n == utxo['output_n']")
+    for f in x.filters:
+        if f in known:
+            continue
+        cols = [c for c in ('account_id', 'network_name', 'status', 'confirmations', 'key_id', 'is_complete', 'block_height', 'witness_type', 'index_n', 'address', 'script_type') if ('.' + c) in f]
+        if cols and '==' in f:
+            ctx.violate(q, 'the look-up of stored inputs that spend a reported UTXO is narrowed by `%s`' % f, x.node,
+                        'a sweep of account 1 is stored under the default account: utxos_update(account_id=1) marks the swept outputs unspent again')
+        else:
+            ctx.unsure('%s: extra predicate `%s` on the stored-input look-up' % (q, f))
+    ctx.require(not x.filter_by, q, 'stored-input look-up uses filter_by(%s)' % x.filter_by, x.node)
     sets = [n for n in ast.walk(fn) if (isinstance(n, ast.Assign) and unparse(n.targets[0]).endswith('.spent')) or (isinstance(n, ast.keyword) and n.arg == 'spent')]
     vals = sorted(set(norm(n.value) for n in sets if 'True' != norm(n.value)))
     ctx.saw('spent flag of (re)imported UTXOs: %s' % vals)
@@ -180,6 +195,27 @@ def balance_reset(ctx):
     ctx.saw('resets before applying the result: %d, rebuilds: %d' % (len(resets), len(rebuilt)))
     ctx.require(bool(resets) or bool(rebuilt), q, 'cached totals are only overwritten for scopes that still have unspent outputs; an emptied scope keeps its previous total', upd[0],
                 'after the last output is spent balance() keeps reporting the old amount')
+    # which cached totals are reset: every entry inside the scope of this update, i.e. the (network, account) filters of the query
+    if resets:
+        from ..sym import Interp, S, State
+        guard = [s for s in resets[0].body if isinstance(s, ast.If) and any(isinstance(x, ast.Assign) and norm(x.value) == '0' for x in ast.walk(s))]
+        if not guard:
+            ctx.saw('the reset is unconditional')
+        else:
+            it = Interp(ctx.repo, W, self_cls=W + ':Wallet')
+            for net, acc, b, exp in ((None, None, ('bitcoin', 0), True), ('bitcoin', None, ('bitcoin', 3), True), ('bitcoin', None, ('litecoin', 3), False),
+                                     (None, 3, ('bitcoin', 3), True), (None, 3, ('bitcoin', 4), False), ('bitcoin', 3, ('bitcoin', 3), True), ('bitcoin', 3, ('litecoin', 3), False)):
+                st = State(env={'network': net, 'account_id': acc, 'b': {'network': b[0], 'account_id': b[1], 'balance': 5}, 'self': S(('var', 'self'))})
+                got = it.truth(it.eval(guard[0].test, st), st)
+                if not isinstance(got, bool):
+                    ctx.undecided('_balance_update: reset condition not decidable: %s' % norm(guard[0].test))
+                ctx.saw('update(network=%s, account_id=%s): cached total of %s reset: %s' % (net, acc, b, got))
+                if exp and not got:
+                    ctx.violate(q, 'update(network=%s, account_id=%s) does not reset the cached total of %s although it lies in the queried scope (`%s`)' % (net, acc, b, norm(guard[0].test)), guard[0],
+                                'balance() (network=None, account_id=None) keeps reporting the old amount after the last output was spent')
+                if got and not exp:
+                    ctx.violate(q, 'update(network=%s, account_id=%s) resets the cached total of %s, which is outside the queried scope' % (net, acc, b), guard[0],
+                                'the balance of another account / network drops to 0 until it is refreshed')
     src = unparse(fn)
     ctx.require("self._balance = sum([b['balance'] for b in balance_list" in src, q, 'wallet total is not the sum over the grouped query result', fn)
     ctx.require('bulk_update_mappings(DbKey, key_balance_list)' in src, q, 'per-key balances are not written from the same grouped result', fn)
